@@ -67,11 +67,11 @@ func exprText(fset *token.FileSet, e ast.Node) string {
 }
 
 type pipeExtractor struct {
-	fset     *token.FileSet
-	pkgOf    string // "pkg" or "internal": package of the function being translated
-	events   []string
-	unknown  map[string]bool
-	opaque   []string
+	fset    *token.FileSet
+	pkgOf   string // "pkg" or "internal": package of the function being translated
+	events  []string
+	unknown map[string]bool
+	opaque  []string
 }
 
 func (px *pipeExtractor) callee(call *ast.CallExpr) (string, bool) {
